@@ -5,7 +5,7 @@ real tools:  asm(disasm(m)) has the same strings, function table and code as m.
 A failing round trip on the real tools is attributed to the conjunct(s) of the theorem's hypothesis wf_moduleb that the
 module violates (evaluated by the extracted Coq function, command `wfm`): key  c11:text:not-wf:<conjunct>.  A module
 that satisfies the hypothesis and still fails, or any disagreement between model and tools, is a violation."""
-import os, re, json, hashlib, struct, collections, shutil
+import os, re, json, hashlib, struct, collections, shutil, time
 from concurrent.futures import ThreadPoolExecutor
 import vlib
 
@@ -179,7 +179,7 @@ def synthetic(ck, rows, C):
     ident = 'abcdefghijklmnopqrstuvwxyzABCDEFGHIJKLMNOPQRSTUVWXYZ0123456789_'
     nice = ''.join(chr(c) for c in range(32, 127) if chr(c) not in ';#')
     ops = sorted(rows)
-    for t in range(300 if ck.thorough else 60):
+    for t in range(1500 if ck.thorough else 60):
         nf = rng.randrange(1, 5)
         wild = rng.random() < 0.15
         strings = []
@@ -406,7 +406,7 @@ def compile_corpus(ck, b):
                 if f.endswith('.nano'):
                     srcs.append(os.path.join(root, f))
     gdir = os.path.join(vlib.BUILD, 'c11', 'gen'); os.makedirs(gdir, exist_ok=True)
-    for i in range(120 if ck.thorough else 40):
+    for i in range(300 if ck.thorough else 40):
         p = os.path.join(gdir, 'g%d_%d.nano' % (ck.seed, i))
         open(p, 'w').write(gen_nano(ck.rng, i))
         srcs.append(p)
@@ -491,6 +491,7 @@ def text_half(ck, b, ref, probe):
     mcmd = model_cmd(ref)
     dist = collections.Counter()
 
+    T0 = time.time(); phase = {}
     # ---- 1. the modules
     compiled, nsrc = compile_corpus(ck, b)
     loads, died = run_parallel([probe], ['load ' + o for _, o in compiled], env=env)
@@ -508,6 +509,7 @@ def text_half(ck, b, ref, probe):
             cases.insert(0, ('corpus:' + c, d['mod']))
     cases += synthetic(ck, rows, C)
     dist['sources_tried'] = nsrc; dist['modules_compiled'] = ncompiled
+    phase['compile+load+generate'] = round(time.time() - T0, 1); T0 = time.time()
 
     # ---- 2. real tools and model on the same questions
     q = ['rt ' + d for _, d in cases]
@@ -516,8 +518,11 @@ def text_half(ck, b, ref, probe):
         tag = cases[idx][0] if idx is not None else '?'
         ck.fail('c11:text:crash:' + tag, 'asm_probe died (rc=%s) on rt of %s' % (rc, tag),
                 dict(rkind='rt', mod=cases[idx][1] if idx is not None else None, stderr=e, engine='asm_probe(asan)'))
+    phase['real rt'] = round(time.time() - T0, 1); T0 = time.time()
     model, mdied = run_parallel(mcmd, q)
+    phase['model rt'] = round(time.time() - T0, 1); T0 = time.time()
     wf, wdied = run_parallel(mcmd, ['wfm ' + d for _, d in cases])
+    phase['model wfm'] = round(time.time() - T0, 1); T0 = time.time()
     if mdied or wdied:
         raise RuntimeError('model process died: %s' % (mdied + wdied)[:1])
     texts = []
@@ -573,8 +578,9 @@ def text_half(ck, b, ref, probe):
         k = next((i for i, (t, _) in enumerate(cases) if t.startswith('jump:targets=513')), 0)
         ck.sample(dict(module=cases[k][0], impl_equals_model=impl[k] == model[k], wf=wf[k], outcome=judge_rt(impl[k])[1] if impl[k] else None))
 
+    phase['compare'] = round(time.time() - T0, 1); T0 = time.time()
     # ---- 3. assembler alone on hand-written / malformed / mutated text
-    T = asm_texts(ck, C) + mutate_texts(ck, texts, 1500 if ck.thorough else 300)
+    T = asm_texts(ck, C) + mutate_texts(ck, texts, 6000 if ck.thorough else 300)
     q = ['asm ' + (t.hex() or '-') for _, t in T]
     ai, died = run_parallel([probe], q, env=env)
     for idx, rc, e in died:
@@ -603,6 +609,7 @@ def text_half(ck, b, ref, probe):
         if tag in want and not (a or '').startswith(want[tag]):
             ck.fail('c11:asm:not-refused:' + tag, 'asm_assemble answered "%s" to %s, expected %s' % (a, tag, want[tag]), dict(rkind='asm', text=t.hex()))
 
+    phase['asm texts'] = round(time.time() - T0, 1); T0 = time.time()
     # ---- 4. the float oracle against the libc both tools use
     pats = list(F64_PATTERNS) + [ck.rng.getrandbits(64) for _ in range(2000 if ck.thorough else 300)] + \
         [ck.rng.getrandbits(52) for _ in range(40)] + [0x7ff0000000000000 | ck.rng.getrandbits(52) for _ in range(40)]
@@ -622,6 +629,8 @@ def text_half(ck, b, ref, probe):
         fdist['%s:%s' % (cl, 'exact' if got == '%x' % p else 'rejected' if got == 'rej' else 'changed')] += 1
     ck.extra['float_oracle_on_libc'] = dict(fdist)
 
+    phase['float oracle'] = round(time.time() - T0, 1)
+    ck.extra['text_phase_seconds'] = phase
     ck.extra['text_distribution'] = dict(dist)
     ck.extra['text_label_shapes'] = dict(shapes)
     ck.extra['text_mnemonics_seen'] = len(mnems)
